@@ -238,9 +238,13 @@ template <int S> static void explore(Ctx &c, long &id) {
       const double *L = letters(S);
       std::vector<double> T(N);
       { long ww = w; for (int i = 0; i < N; ++i) { int l = ww % base; ww /= base; T[i] = (base == 3 ? L[l] : (l == 0 ? L[0] : L[2])) * sigmas[si]; } }
+      // start-time alphabet; letter 3 = map-frame start 1.7e9 + 0.3 with the durations x 0.7 (start + durations inexact in double:
+      // anything that re-derives a duration from absolute knots is off by ~1e-7; seeded changes C06-m6, C02-m5)
+      const int tl = (int)((w + N) % 4); const double t0v = tl == 0 ? 0.0 : tl == 1 ? -2.5 : tl == 2 ? 1024.125 : 1.7e9 + 0.3;
+      if (tl == 3) for (double &t : T) t *= 0.7;
       RefJac J = ref_jacobian(S, T);
       Runner<S> r(c, unit, J);
-      r.run_case(N, T, (w % 3 == 0) ? 0.0 : (w % 3 == 1) ? -2.5 : 1024.125);
+      r.run_case(N, T, t0v);
       ++c.st.evaluations;
       std::string key = fmt("S%d/N%d/b%d/w%ld/s%zu", S, N, base, w, si);
       if (!c.st.seen(key) && N >= 2) ++c.st.nontrivial;
